@@ -79,6 +79,15 @@ N6 ==
     /\ dev = Cfg(A, NoFn, FALSE)
     /\ tgt = Cfg(B, NoFn, FALSE)
 
+(* N7: in-place edits of one group: the members go from any non-empty set of addresses to any other (several *)
+(* addresses added and removed at once, not adjacent in the sorted list); one or two rules use the group      *)
+N7 ==
+  \E da, ta \in (SUBSET (Addrs \cup {"10.1.2.50"})) \ {{}}, two \in BOOLEAN :
+    LET S == {R(20, "ALLOW", "OUT", G("g0"), "10.1.2.30", "s:Netspoc-tcp_80")}
+             \cup (IF two THEN {R(20, "ALLOW", "OUT", "10.1.1.10", G("g0"), "s:Netspoc-udp_53")} ELSE {})
+    IN /\ dev = Cfg(S, [n \in {"Netspoc-g0"} |-> da], FALSE)
+       /\ tgt = Cfg(S, [n \in {"Netspoc-g0"} |-> ta], FALSE)
+
 (* N4: the manager holds Netspoc-g0 and Netspoc-g0-1 (the result of an earlier approve that had to rename a *)
 (* clashing group); the target again has g0 / g1 with any contents                                            *)
 N4 ==
@@ -124,7 +133,7 @@ M2 ==
           /\ tgt = v4 @@ [parts |-> [craw |-> [policies |-> rawpol, groups |-> NoFn, services |-> NoFn],
                                      merged |-> [policies |-> mpol, groups |-> gm, services |-> v4.services]]]
 
-Init == CASE Fam = "N6" -> N6 [] Fam = "N5" -> N5 [] Fam = "N4" -> N4 [] Fam = "M2" -> M2 [] Fam = "M1" -> M1 [] Fam = "N3" -> N3 [] Fam = "N1" -> N1 [] Fam = "N2" -> N2
+Init == CASE Fam = "N7" -> N7 [] Fam = "N6" -> N6 [] Fam = "N5" -> N5 [] Fam = "N4" -> N4 [] Fam = "M2" -> M2 [] Fam = "M1" -> M1 [] Fam = "N3" -> N3 [] Fam = "N1" -> N1 [] Fam = "N2" -> N2
 Next == UNCHANGED <<dev, tgt>>
 HasTie == \E g, h \in DOMAIN dev.groups : g # h /\ dev.groups[g] = dev.groups[h]
 Out == PrintT(<<"VOUT", ToJson([fam |-> Fam, dev |-> dev, tgt |-> tgt, tie |-> HasTie])>>)
